@@ -5,7 +5,7 @@ package util
 // paths is run on a real trie (memory store) and compared, after every step, with a Go map:
 // lookups of all paths, the error of deleting an absent path, and full iteration.
 // property: C01
-// scope: paths {"", 12, 13, 1234, 1235, 12ab, 12abcd, 5678}; values {x, y}; all sequences of <= 3 operations (quick) / <= 4 (thorough), from the empty trie and from base contents {12,1234,5678}, {12,1234,1235}
+// scope: paths {"", 12, 13, 1234, 1235, 12ab, 12abcd, 5678}; values {x, a:b} (one with the separator byte); all sequences of <= 3 operations (quick) / <= 4 (thorough), from the empty trie and from base contents {12,1234,5678}, {12,1234,1235}
 
 import (
 	"context"
@@ -34,7 +34,7 @@ func TestGocvBoundedC01(t *testing.T) {
 	paths := []string{"", "12", "13", "1234", "1235", "12ab", "12abcd", "5678"}
 	var ops []c01op
 	for _, p := range paths {
-		ops = append(ops, c01op{false, p, "x"}, c01op{false, p, "y"}, c01op{true, p, ""})
+		ops = append(ops, c01op{false, p, "x"}, c01op{false, p, "a:b"}, c01op{true, p, ""})
 	}
 	depth := 3
 	if os.Getenv("VERIF_TIER") == "thorough" {
